@@ -444,11 +444,14 @@ pub fn gen_spec(rng: &mut Rng, p: &Profile) -> Spec {
             // inputs already declared on the path item are inherited, not repeated; D: the names of one operation's
             // inputs (inherited ones included) stay distinct after normalisation
             op.params.retain(|q| !pi.params.iter().any(|x| x.name == q.name || norm(&x.name) == norm(&q.name)));
+            // a body property may carry EXACTLY the name of an inherited parameter (it shadows it: one input); what D excludes
+            // is two different spellings of one normalised name
+            let inherited_names: Vec<String> = pi.params.iter().map(|x| x.name.clone()).collect();
             let inherited: Vec<String> = pi.params.iter().map(|x| norm(&x.name)).collect();
             let clash = match &mut op.body {
                 Some(SRef::Inl(b)) => {
                     if let Kind::Object { props, required, .. } = &mut b.kind {
-                        props.retain(|(k, _)| !inherited.contains(&norm(k)));
+                        props.retain(|(k, _)| inherited_names.contains(k) || !inherited.contains(&norm(k)));
                         required.retain(|r| props.iter().any(|(k, _)| k == r));
                         props.is_empty()
                     } else {
